@@ -122,7 +122,7 @@ class ModelGraph:
             ls, le = old[-1]
             if e is None and ls == le and t == le + 1:
                 self.unclosed2.setdefault(k, set()).add(ls)
-            elif ls in self.unclosed2.get(k, ()) and max(span) > le:
+            elif ls in self.unclosed2.get(k, ()) and t <= le + 1 and max(span) > le:
                 # latest run is extended again: the implementation closes it now
                 self.unclosed2[k].discard(ls)
         self.pres.setdefault(k, set()).update(span)
